@@ -37,7 +37,7 @@ type lockType struct {
 	// unexported, lock-free internals of *other* objects of the package: calling one on anything but the
 	// receiver by-passes that object's mutex
 	ForeignInternals []string
-	Exempt    map[string][2]string
+	Exempt           map[string][2]string
 }
 
 var lockTypes = []lockType{
@@ -54,8 +54,8 @@ var lockTypes = []lockType{
 	},
 	{
 		Name: "SyncedPool", Dir: "kvdb/flushable", Recvs: []string{"SyncedPool"},
-		Mutexes:   map[string][]string{"Mutex": {"wrappers"}, "queuedDropsMu": {"queuedDrops"}, "flushing": {}},
-		Immutable: []string{"producer", "flushIDKey"},
+		Mutexes:          map[string][]string{"Mutex": {"wrappers"}, "queuedDropsMu": {"queuedDrops"}, "flushing": {}},
+		Immutable:        []string{"producer", "flushIDKey"},
 		ForeignInternals: []string{"initUnderlyingDb", "flush", "put", "delete", "dropNotFlushed"},
 		Exempt: map[string][2]string{
 			"Initialize": {"lifecycle", "start-up: registers the DBs before the pool is shared (getDB without the pool lock); caller contract"},
